@@ -73,6 +73,7 @@ type Program struct {
 	// disk faults injected through the VFS shim into on-disk sequential runs
 	Faults  []FaultSpec `json:"faults,omitempty"`
 	Backlog int         `json:"backlog,omitempty"` // E4: number of events that pile up behind a stalled consumer
+	Overdue int         `json:"overdue,omitempty"` // E4: number of documents written one after the other with an expiry time that has already passed
 	Torn    bool        `json:"torn,omitempty"`
 }
 
